@@ -6,6 +6,10 @@ set_option linter.unusedVariables false
 namespace Proofs.TEI
 open Tak Tak.TEI Spec.TEI
 
+theorem wrap64_id (v : Int) (h1 : -two63 ≤ v) (h2 : v < two63) : wrap64 v = v := by
+  unfold wrap64 two63 two64 at *
+  omega
+
 def Agrees (env : Env) (hist : List (List String)) (st : Engine) : Prop :=
   st.size = sizeTold hist ∧ st.pos = posTold env hist
 
